@@ -67,13 +67,16 @@ def getProblem (j : Json) : Except String Problem := do
 
 /-- the call as made: `via` = "dict" | "factory" | "string" (+ `string_keys`), `reactants_set` / `products_set`;
     returns the resolved problem (sides sorted when passed as sets, substances resolved) -/
+def getArg (j : Json) : Except String SubstArg := do
+  match (← getStr j "via") with
+  | "dict" => pure SubstArg.mapping
+  | "factory" => pure SubstArg.factory
+  | "string" => do pure (SubstArg.keys (← getStrList j "string_keys"))
+  | _ => .error "!bad-arg:via"
+
 def getCall (j : Json) : Except String (Except Err Problem) := do
   let p ← getProblem j
-  let arg ← match (← getStr j "via") with
-    | "dict" => pure SubstArg.mapping
-    | "factory" => pure SubstArg.factory
-    | "string" => do pure (SubstArg.keys (← getStrList j "string_keys"))
-    | _ => .error "!bad-arg:via"
+  let arg ← getArg j
   match setupVia p.substances arg (← getBool j "reactants_set") (← getBool j "products_set") p.reactants p.products with
   | .ok (q, _) => pure (.ok q)
   | .error e => pure (.error e)
@@ -111,12 +114,12 @@ def h : Handler := fun op j =>
         | .error e => pure (showErr e)
   | "balance" => do
       let c ← getCand j
-      match (← getCall j) with
+      let p ← getProblem j
+      let arg ← getArg j
+      match balanceVia (← getMode j) (fun _ => c) p.substances arg (← getBool j "reactants_set") (← getBool j "products_set")
+          p.reactants p.products with
+      | .ok (r, pr) => pure s!"ok {showDict r} {showDict pr}"
       | .error e => pure (showErr e)
-      | .ok q =>
-        match balanceCore (← getMode j) (fun _ => c) q with
-        | .ok (r, p) => pure s!"ok {showDict r} {showDict p}"
-        | .error e => pure (showErr e)
   | "dup" => do
       let tab ← getTable j
       let mode ← getMode j
